@@ -230,7 +230,9 @@ EXTRA_TEXT = {
            "hand-written decision Spec.underlapVerdict (C10_generated_underlap_eq_spec); C10_underlap_silent_iff: a trace passes exactly when every end is well snapped or has no candidate "
            "in (t, t*m). Stream S10-stacking sweeps the stacking window deterministically (alongside length x orientation x start x offsets to 1e7 x thresholds), S10-sharp the direction-change limit of SHARP TURNS. "
            "TargetAreaSnapValidator.validation_method and simple_underlapping_checks are regenerated as well (C10_generated_area_validation, C10_simple_underlapping_checks); "
-           "stream S10-generated runs both compiled regenerated validators against the real methods with the geometric sub-decisions scripted on both sides.",
+           "stream S10-generated runs both compiled regenerated validators against the real methods with the geometric sub-decisions scripted on both sides. "
+           "is_underlapping, determine_middle_in_triangle and split_to_determine_triangle_errors are regenerated too (C10_generated_is_underlapping, C10_generated_middle_in_triangle, "
+           "C10_generated_triangle) and run against the real functions with a scripted split.",
     "C12": " Added: determine_intersect and the pair loop of determine_crosscut_abutting_relationships are regenerated; C12_generated_determine_intersect (= Rel.intersectOf, all cases) and "
            "C12_generated_rows (exactly one row per pair of sets that both contain traces, in combinations order, each from its own pair) hold for all inputs.",
     "C13": " Added: C13_underlap_attribute over the regenerated stateful validator (a passing call leaves the class attribute untouched; verdict and written string never depend on its old "
@@ -240,7 +242,8 @@ EXTRA_TEXT = {
            "C14_generated_routes proves that already_clipped=True on X and False on Y give the same result or exception whenever the prepared trace lists agree: the flag only decides who crops.",
     "C16": " S16-validation now also runs user-supplied thresholds 0.1 and 0.001. C16_boundary_lines_transparent: the regenerated loops of determine_boundary_intersecting_lines give the same "
            "flags for any two candidate windows that contain every line within the threshold of a boundary (empty windows in any row position included); stream S16-multiarea runs "
-           "boundary flags, cropping and extraction on 2-3 area rows (some far from every trace) with the real index and the return-everything index.",
+           "boundary flags, cropping and extraction on 2-3 area rows (some far from every trace) with the real index and the return-everything index. "
+           "determine_trace_candidates is regenerated: C16_generated_validation_candidates / C16_candidates_complete (every LineString trace the index reports for the extended window is a candidate).",
     "C17": " S17 adds the input with a CRS on the traces only and plain cold-then-warm repeats of crop / topology.",
     "C18": " S18 adds reordered / filtered precursor grids (index labels not 0..n-1). The two loops of create_grid are regenerated and C18_generated_grid proves they build exactly Grid.cells "
            "(so squareness, count, disjointness and cover are theorems about regenerated code); stream S18-generated compares the compiled regenerated loops with the real create_grid cell by cell.",
